@@ -111,6 +111,10 @@ where
         A: Ord + Clone,
         S: DataMut,
     {
+        #[cfg(all(rust_ndarray_ndarray_stats_verif, kani))]
+        if let Some(r) = crate::verif_hooks::select_cut(&mut self.view_mut(), i) {
+            return r;
+        }
         let n = self.len();
         assert!(
             i < n,
@@ -249,6 +253,10 @@ fn _get_many_from_sorted_mut_unchecked<A>(
 ) where
     A: Ord + Clone,
 {
+    #[cfg(all(rust_ndarray_ndarray_stats_verif, kani))]
+    if crate::verif_hooks::bulk_cut(&mut array, indexes, values) {
+        return;
+    }
     let n = array.len();
     debug_assert!(n >= indexes.len()); // because indexes must be unique and in-bounds
     debug_assert_eq!(indexes.len(), values.len());
